@@ -1,10 +1,15 @@
 from . import COMMON_TB, FLOCQ_AXIOMS_NOTE
 
-CONFIG = dict(
-    harness="c03",
-    comparisons=[
+_cmp = [
         dict(name="reference_documents", code=300, kind="eq", predicate=True),
         dict(name="model", code=200, kind="eq"),
+    ]
+CONFIG = dict(
+    harness="c03",
+    # the formatter is exercised as built without debug assertions, too (the shipped configuration)
+    suites=[
+        dict(suffix="", profile="debug", comparisons=_cmp),
+        dict(suffix="", profile="release", comparisons=_cmp),
     ],
     trusted_base=COMMON_TB + [FLOCQ_AXIOMS_NOTE],
     assumptions=[
